@@ -15,6 +15,10 @@ const cnsPkg = "pkg/consensus"
 func ruleProposalDominators(c *Ctx) {
 	fnVB := [3]string{cnsPkg, "service", "verifyBlock"}
 	fnVR := [3]string{cnsPkg, "service", "verifyRequest"}
+	// backups accept what an honest primary builds: limits are inclusive on the verifying side
+	limitBoundary(c, "verifyRequest.tx-count-boundary", fnVR, "pkg/config#MaxTransactionsPerBlock", "a transaction count", 1)
+	limitBoundary(c, "verifyBlock.size-boundary", fnVB, "pkg/config#MaxBlockSize", "a block size", 1)
+	limitBoundary(c, "verifyBlock.sysfee-boundary", fnVB, "pkg/config#MaxBlockSystemFee", "a system fee sum", 1)
 	runGates(c, []GateSpec{
 		{ID: "verifyBlock.accept", Fn: fnVB, Target: "return-true",
 			Guards: []Guard{
